@@ -131,7 +131,7 @@ def thorough_extras(units, repo, work, seed, results):
                 os.makedirs(d, exist_ok=True)
                 path = os.path.join(d, u + '.rs')
                 open(path, 'w').write(res['g'].text)
-                jobs[(u, s)] = ex.submit(R.run_verus, path, R.DEFAULT_RLIMIT, s)
+                jobs[(u, s)] = ex.submit(R.run_verus, path, max(R.DEFAULT_RLIMIT, getattr(weave.load_unit(u), 'RLIMIT', 0)), s)
         for (u, s), f in jobs.items():
             an = R.analyse(results[u]['g'], f.result(), u)
             extra['stability'].setdefault(u, []).append(
